@@ -178,6 +178,11 @@ def check(ctx):
     check_names(ctx)
     check_lookup_keys(ctx)
     check_count_denominators(ctx)
+    # the centroid statement presupposes that the statistics file holds
+    # the true cluster sums: the merge of the worker buffers adds each
+    # piece exactly once (shared with C09)
+    from .C09 import check_merge_loops
+    check_merge_loops(ctx)
 
 
 # ----------------------------------------------------------------------
